@@ -217,16 +217,19 @@ impl Analysis {
                     }
             })
             .collect();
-        // A position between two tokens that touch each other ('}w:') is the end of one and the start of the other: the one
-        // that starts there comes first, and the order never depends on the hash map
-        found.sort_by_key(|(_, definition)| {
-            let starts_here = definition
+        // A position between two tokens that touch each other ('}w:') is the end of one and the start of the other: it
+        // belongs to the one that starts there. And the order of the result never depends on the hash map
+        let starts_here = |definition: &Definition| {
+            definition
                 .location
                 .iter()
                 .chain(definition.usages.iter())
-                .any(|l| span_contains_impl(l.span, &self.tree, &path, pos, false));
-            (!starts_here, definition.location.as_ref().map(|l| l.span))
-        });
+                .any(|l| span_contains_impl(l.span, &self.tree, &path, pos, false))
+        };
+        if found.iter().any(|(_, definition)| starts_here(definition)) {
+            found.retain(|(_, definition)| starts_here(definition));
+        }
+        found.sort_by_key(|(_, definition)| definition.location.as_ref().map(|l| l.span));
         found
     }
 
